@@ -2,6 +2,7 @@
 (hand-written model Model/Sign.v over an abstract signature scheme + correspondence
 with wallet.SignTransaction on real wallets of every type)."""
 import vf
+from props import _txw
 
 SPEC = {
     "uses_gen": False,
@@ -27,4 +28,8 @@ SPEC = {
 
 
 def run(ctx):
-    vf.standard_run(ctx, SPEC)
+    _txw.run_precompiled(ctx, SPEC)
+
+
+def replay(ctx, path):
+    return _txw.replay(ctx, SPEC, path)
